@@ -85,7 +85,15 @@ def _families(tier, seed):
     if not thorough:
         r3 = [(sh, k) for k in K3[:2] for sh in ('full', 'long')] + [('before', None), ('empty', None)]
         fams['ragged3'] = dict(hdr=('id', 'k', 'v'), syms=r3, maxn=3, minn=3, keys=[('k', 'core'), (None, 'core')])
+    # header-field naming: field names that are not text (ints that look like indices, None, float), duplicate
+    # names and names equal after str().  key=None (lexical) and keys given by index must not look at the names.
+    for i, h in enumerate(HEADER_NAMINGS):
+        fams['hn%d' % i] = dict(hdr=h, syms=[('m', a, b) for a in K3 for b in K3], maxn=3 if thorough else 2,
+                                keys=[(None, 'lite'), (0, 'lite'), ((1, 0), 'lite')])
     return fams
+
+
+HEADER_NAMINGS = [('name', 0), (1, 0), (0, 0), (None, 'v'), (1.5, 'v'), ('v', 'v'), ('1', 1), (7, 'v')]
 
 
 def _row(sym, i):
@@ -133,7 +141,8 @@ def _mfamilies(tier, seed):
     thorough = tier == 'thorough'
     fams = {}
     fams['m2'] = dict(hdr=('k', 'id'), syms=[('f', k) for k in K4], maxn=4 if thorough else 3, parts=2,
-                      keys=['k', None], hvs=('same', 'extra', 'permuted', 'renamed'), extras=thorough)
+                      keys=['k', None], hvs=('same', 'extra', 'permuted', 'renamed'), extras=thorough,
+                      hforms=('same', 'permuted'))
     if not thorough:
         fams['m2n4'] = dict(hdr=('k', 'id'), syms=[('f', k) for k in K3], maxn=4, minn=4, parts=2,
                             keys=['k', None], hvs=('same',), extras=False)
@@ -145,7 +154,7 @@ def _mfamilies(tier, seed):
                        hvs=('same',), extras=False)
     if thorough:
         fams['m3'] = dict(hdr=('k', 'id'), syms=[('f', k) for k in K3], maxn=4, parts=3, keys=['k', None],
-                          hvs=('same', 'permuted'), extras=False)
+                          hvs=('same', 'permuted'), extras=False, hforms=('same',))
     return fams
 
 
@@ -394,6 +403,21 @@ def _same_column_order(parts):
     return True
 
 
+def header_forms(U, key):
+    """Explicit header= arguments relative to the union header U of the inputs."""
+    keyf = () if key is None else ((key,) if not isinstance(key, (list, tuple)) else tuple(key))
+    out = [tuple(U), tuple(reversed(U))]
+    for f in U:
+        if f not in keyf and len(U) > 1:
+            out.append(tuple(x for x in U if x != f))      # one (non-key) column dropped
+    out.append(tuple(U) + ('zz',))
+    res = []
+    for h in out:
+        if h not in res:
+            res.append(h)
+    return res
+
+
 def merge_configs(fam):
     """(key, reverse, presorted, buffersize, cache, missing, header_kw) — default arguments first."""
     out = []
@@ -456,10 +480,11 @@ def judge_merge(parts, key, rev, missing, header, out, sortcat):
     return None
 
 
-def _merge_group(parts, key, hv, sig, pres, rev, p, cache):
+def _merge_group(parts, key, hv, sig, pres, rev, p, cache, header=None):
     same = _same_column_order(parts)
-    return 'mergesort key=%s, inputs %s | %s' % (
-        _keyform(key), 'in the same column order' if same else 'in different column order', sig)
+    return 'mergesort key=%s, inputs %s%s | %s' % (
+        _keyform(key), 'in the same column order' if same else 'in different column order',
+        ', header= given' if header is not None else '', sig)
 
 
 def _merge_nontrivial(parts, key, rev):
@@ -486,12 +511,23 @@ def check_split(acc, famname, fam, rows, assign):
         raw = [_variant_part(hv, pi, hdr, base[pi]) for pi in range(m)]
         same_order = _same_column_order(raw)
         cfgs = list(merge_configs(fam))
+        if hv in fam.get('hforms', ()):
+            # header= / missing= forms (both tiers): key given by name and key=None x header= {natural order,
+            # reordered, one column dropped, extra column} x reverse x buffersize {None, 1}; missing='~' with the
+            # extra column.  Never presorted ("already sorted" would be ambiguous under a re-laid-out header).
+            U = tuple(sr.cat(raw)[0])
+            for key in fam['keys']:
+                for hk in header_forms(U, key):
+                    for rev in (False, True):
+                        for bs in (None, 1):
+                            cfgs.append((key, rev, False, bs, True, None, hk))
+                for rev in (False, True):
+                    cfgs.append((key, rev, False, None, True, '~', U + ('zz',)))
         if fam.get('extras') and hv in ('same', 'extra', 'renamed'):
             keyname = fam['keys'][0]
             for rev in (False, True):
                 cfgs.append((keyname, rev, False, None, True, '~', None))
-                cfgs.append((keyname, rev, False, 1, True, None, tuple(reversed(sr.cat(raw)[0]))))
-                cfgs.append((keyname, rev, False, None, True, None, tuple(sr.cat(raw)[0]) + ('zz',)))
+                cfgs.append((None, rev, False, None, True, '~', None))
         if hv == 'same':
             # key by index: only when every input has the same header (mergesort documents field names)
             k0 = fam['keys'][0]
@@ -503,8 +539,6 @@ def check_split(acc, famname, fam, rows, assign):
         for (key, rev, pres, bs, cache, missing, header) in cfgs:
             if pres and key is None and not same_order:
                 continue   # "presorted lexically" is ambiguous when column orders differ
-            if header is not None and key is None:
-                continue
             if pres:
                 parts = [(h, sr.presort(h, r, key, rev)) for h, r in raw]
             else:
@@ -532,7 +566,7 @@ def check_split(acc, famname, fam, rows, assign):
                 case = {'kind': 'mergesort', 'parts': [(tuple(h), [tuple(r) for r in rs]) for h, rs in parts],
                         'key': key, 'reverse': rev, 'presorted': pres, 'buffersize': bs, 'cache': cache,
                         'missing': missing, 'header_kw': header, 'pass': p, 'hv': hv}
-                acc.violation(_merge_group(parts, key, hv, sig, pres, rev, p, cache), case, expd, obs,
+                acc.violation(_merge_group(parts, key, hv, sig, pres, rev, p, cache, header), case, expd, obs,
                               'mergesort of %d tables (key=%r, reverse=%r, presorted=%r, buffersize=%r, cache=%r, '
                               'missing=%r, header=%r) pass %d: %s; the statement demands sort(cat(...))'
                               % (len(parts), key, rev, pres, bs, cache, missing, header, p, sig))
@@ -573,7 +607,8 @@ def _table_ms(fam, n):
 
 def _split_ms(fam, n):
     ncfg = len(fam['keys']) * 2 * 5 + 4
-    return len(fam['hvs']) * ncfg * (0.15 + 0.12 * n)
+    nh = len([hv for hv in fam['hvs'] if hv in fam.get('hforms', ())]) * len(fam['keys']) * 20
+    return (len(fam['hvs']) * ncfg + nh) * (0.15 + 0.12 * n)
 
 
 def _ranges(total, per):
